@@ -451,3 +451,9 @@ PROPS['C16']['assumptions'] = PROPS['C16']['assumptions'] + [A_SERIAL_VERUS, A_S
 PROPS['C18']['verus'] = [{'tmpl': 'serial.rs.tmpl', 'obligations': ['delay_after_send', 'delay_after_receive']}]
 PROPS['C18']['assumptions'] = PROPS['C18']['assumptions'] + [A_SERIAL_VERUS,
     'Verus (unbounded): delay_after_send(m) == Some(30 ms) iff m is SendData, delay_after_receive(r) == Some(100 ms) iff r is ReportState(_, PageLoadInProgress | PageShowInProgress), extracted on every run (robust to the private-signature fragility of the Kani classifier harness); WHERE the sleeps are placed stays with the Kani event-order harnesses']
+
+# ---- C17: the bridge's per-call contract as a Verus postcondition on the extracted Odk::process_message (same unit)
+PROPS['C17']['verus'] = [{'tmpl': 'serial.rs.tmpl', 'obligations': ['Odk::process_message', 'SerialSignBus::process_message', 'Frame::write', 'Frame::read']}]
+PROPS['C17']['functions'] = ['flipdot_testing::odk::Odk::process_message (Verus, extracted verbatim; OdkError extracted with its two source types replaced by stand-ins; SignBus is a stand-in trait with a ghost log)', SERIAL_VERUS_FNS] + PROPS['C17']['functions']
+PROPS['C17']['assumptions'] = PROPS['C17']['assumptions'] + [A_SERIAL_VERUS, A_STDIO, A_USIZE,
+    'UNBOUNDED part (Verus, per call of the bridge, frames / lines of any length): Ok => exactly one line was taken off the port, it decoded, the bus was given exactly Message::from(that frame), once, and exactly the answer of the bus (if any) was written back as one frame + CRLF; a line that does not decode is never forwarded and never answered (Err); any Err => the bus was asked at most once and nothing is written unless it was asked. The stand-in SignBus trait logs what it was given and what it answered (ghost); thiserror #[from] conversions are written out. Together with the contract of SerialSignBus::process_message in the same file these are the two halves of one exchange; their composition over a pipe (what one side writes is what the other reads) and the induction over a conversation are NOT done in Verus - the Kani per-exchange lemma (contract-level pipe) and the native serial-path run remain the composition evidence']
